@@ -28,7 +28,42 @@ def _setup_path() -> None:
     sys.path.insert(0, repo_src)
 
 
+COV_DIR = os.environ.get("VERIF_COV_DIR")  # reach measurement only (tools/reach.py); off in every registered command
+
+
+def _cov_start() -> set:
+    lines: set = set()
+    root = os.path.realpath(os.environ.get("VERIF_REPO_SRC", "/repo/src")) + "/pyoak/"
+    mon = sys.monitoring
+    mon.use_tool_id(mon.COVERAGE_ID, "verif-reach")
+
+    def on_line(code, line):  # noqa: ANN001
+        fn = code.co_filename
+        if fn.startswith(root):
+            lines.add((fn[len(root) :], line))
+        return mon.DISABLE
+
+    mon.register_callback(mon.COVERAGE_ID, mon.events.LINE, on_line)
+    mon.set_events(mon.COVERAGE_ID, mon.events.LINE)
+    return lines
+
+
+def _cov_dump(lines: set, job: dict) -> None:
+    sys.monitoring.set_events(sys.monitoring.COVERAGE_ID, 0)
+    with open(os.path.join(COV_DIR, f"{job['prop']}-{os.getpid()}-{job.get('rseed')}.cov"), "w") as f:
+        f.write("\n".join(f"{a}:{b}" for a, b in sorted(lines)))
+
+
 def _child(job: dict, M, wfd: int, peer) -> None:
+    cov = _cov_start() if COV_DIR else None
+    try:
+        _child_inner(job, M, wfd, peer)
+    finally:
+        if cov is not None:
+            _cov_dump(cov, job)
+
+
+def _child_inner(job: dict, M, wfd: int, peer) -> None:
     try:
         if job.get("mode") == "replay":
             cfg = job["cfg"]
